@@ -5,6 +5,7 @@ use crate::common::guarded_mut;
 use fnv::FnvHasher;
 use indexmap::IndexMap;
 use probminhash::densminhash::{OptDensMinHash, RevOptDensMinHash};
+use probminhash::nohasher::NoHashHasher;
 use probminhash::probminhasher::probordminhash2::ProbOrdMinHash2;
 use probminhash::probminhasher::{ProbMinHash2, ProbMinHash3, ProbMinHash3a, ProbMinHash3aSha};
 use probminhash::setsketcher::{SetSketchParams, SetSketcher};
@@ -71,17 +72,17 @@ fn to_applied(r: Result<Result<(), String>, String>) -> Applied {
 
 // ---------------------------------------------------------------- SuperMinHash (float)
 
-pub struct ISmh<F: num::Float + rand_distr::uniform::SampleUniform + std::fmt::Debug + Send> {
-    s: SuperMinHash<F, u64, FnvHasher>,
+pub struct ISmh<F: num::Float + rand_distr::uniform::SampleUniform + std::fmt::Debug + Send, H: std::hash::Hasher + Default = FnvHasher> {
+    s: SuperMinHash<F, u64, H>,
     m: usize,
     fed: usize,
 }
-impl<F: num::Float + rand_distr::uniform::SampleUniform + std::fmt::Debug + Send> ISmh<F> {
+impl<F: num::Float + rand_distr::uniform::SampleUniform + std::fmt::Debug + Send, H: std::hash::Hasher + Default> ISmh<F, H> {
     pub fn new(m: usize) -> Self {
-        ISmh { s: SuperMinHash::new(m, BuildHasherDefault::<FnvHasher>::default()), m, fed: 0 }
+        ISmh { s: SuperMinHash::new(m, BuildHasherDefault::<H>::default()), m, fed: 0 }
     }
 }
-impl<F: num::Float + rand_distr::uniform::SampleUniform + std::fmt::Debug + Send> Inst for ISmh<F> {
+impl<F: num::Float + rand_distr::uniform::SampleUniform + std::fmt::Debug + Send, H: std::hash::Hasher + Default> Inst for ISmh<F, H> {
     fn apply(&mut self, op: &Op) -> Applied {
         let s = &mut self.s;
         match op {
@@ -125,15 +126,15 @@ impl<F: num::Float + rand_distr::uniform::SampleUniform + std::fmt::Debug + Send
 
 // ---------------------------------------------------------------- SuperMinHash2 (integer)
 
-pub struct ISmh2U64 {
-    s: SuperMinHash2<u64, u64, FnvHasher>,
+pub struct ISmh2U64<H: std::hash::Hasher + Default = FnvHasher> {
+    s: SuperMinHash2<u64, u64, H>,
 }
-impl ISmh2U64 {
+impl<H: std::hash::Hasher + Default> ISmh2U64<H> {
     pub fn new(m: usize) -> Self {
-        ISmh2U64 { s: SuperMinHash2::new(m, BuildHasherDefault::<FnvHasher>::default()) }
+        ISmh2U64 { s: SuperMinHash2::new(m, BuildHasherDefault::<H>::default()) }
     }
 }
-impl Inst for ISmh2U64 {
+impl<H: std::hash::Hasher + Default> Inst for ISmh2U64<H> {
     fn apply(&mut self, op: &Op) -> Applied {
         let s = &mut self.s;
         match op {
@@ -201,21 +202,21 @@ pub fn setsketch_params(variant: usize, m: usize) -> SetSketchParams {
     }
 }
 
-pub struct ISet<I: num::Integer + num::ToPrimitive + num::FromPrimitive + num::Bounded + Copy + Clone + std::fmt::Debug + Send> {
-    s: SetSketcher<I, u64, FnvHasher>,
-    other: SetSketcher<I, u64, FnvHasher>,
+pub struct ISet<I: num::Integer + num::ToPrimitive + num::FromPrimitive + num::Bounded + Copy + Clone + std::fmt::Debug + Send, H: std::hash::Hasher + Default = FnvHasher> {
+    s: SetSketcher<I, u64, H>,
+    other: SetSketcher<I, u64, H>,
 }
-impl<I: num::Integer + num::ToPrimitive + num::FromPrimitive + num::Bounded + Copy + Clone + std::fmt::Debug + Send> ISet<I> {
+impl<I: num::Integer + num::ToPrimitive + num::FromPrimitive + num::Bounded + Copy + Clone + std::fmt::Debug + Send, H: std::hash::Hasher + Default> ISet<I, H> {
     pub fn new(variant: usize, m: usize) -> Self {
         let p = setsketch_params(variant, m);
-        let mut other = SetSketcher::<I, u64, FnvHasher>::new(p, BuildHasherDefault::<FnvHasher>::default());
+        let mut other = SetSketcher::<I, u64, H>::new(p, BuildHasherDefault::<H>::default());
         for x in 5000u64..5040 {
             let _ = other.sketch(&x);
         }
-        ISet { s: SetSketcher::new(p, BuildHasherDefault::<FnvHasher>::default()), other }
+        ISet { s: SetSketcher::new(p, BuildHasherDefault::<H>::default()), other }
     }
 }
-impl<I: num::Integer + num::ToPrimitive + num::FromPrimitive + num::Bounded + Copy + Clone + std::fmt::Debug + Send> Inst for ISet<I> {
+impl<I: num::Integer + num::ToPrimitive + num::FromPrimitive + num::Bounded + Copy + Clone + std::fmt::Debug + Send, H: std::hash::Hasher + Default> Inst for ISet<I, H> {
     fn apply(&mut self, op: &Op) -> Applied {
         let s = &mut self.s;
         match op {
@@ -259,15 +260,15 @@ impl<I: num::Integer + num::ToPrimitive + num::FromPrimitive + num::Bounded + Co
 
 macro_rules! dens_inst {
     ($name:ident, $ty:ident) => {
-        pub struct $name<F: crate::dens::FBits + Send> {
-            s: $ty<F, u64, FnvHasher>,
+        pub struct $name<F: crate::dens::FBits + Send, H: std::hash::Hasher + Default = FnvHasher> {
+            s: $ty<F, u64, H>,
         }
-        impl<F: crate::dens::FBits + Send> $name<F> {
+        impl<F: crate::dens::FBits + Send, H: std::hash::Hasher + Default> $name<F, H> {
             pub fn new(m: usize) -> Self {
-                $name { s: $ty::new(m, BuildHasherDefault::<FnvHasher>::default()) }
+                $name { s: $ty::new(m, BuildHasherDefault::<H>::default()) }
             }
         }
-        impl<F: crate::dens::FBits + Send> Inst for $name<F> {
+        impl<F: crate::dens::FBits + Send, H: std::hash::Hasher + Default> Inst for $name<F, H> {
             fn apply(&mut self, op: &Op) -> Applied {
                 let s = &mut self.s;
                 match op {
@@ -597,19 +598,25 @@ fn kind(name: String, has_reinit: bool, has_end: bool, has_merge: bool, min_batc
 pub fn catalogue(sizes: &[usize], pin_pomh_seed: bool) -> Vec<Kind> {
     let mut v = Vec::new();
     for &m in sizes {
-        v.push(kind(format!("SuperMinHash<f64> m={}", m), true, false, false, 1, true, move || Box::new(ISmh::<f64>::new(m))));
-        v.push(kind(format!("SuperMinHash<f32> m={}", m), true, false, false, 1, true, move || Box::new(ISmh::<f32>::new(m))));
-        v.push(kind(format!("SuperMinHash2<u64> m={}", m), true, false, false, 1, true, move || Box::new(ISmh2U64::new(m))));
+        v.push(kind(format!("SuperMinHash<f64> m={}", m), true, false, false, 1, true, move || Box::new(ISmh::<f64, FnvHasher>::new(m))));
+        v.push(kind(format!("SuperMinHash<f32> m={}", m), true, false, false, 1, true, move || Box::new(ISmh::<f32, FnvHasher>::new(m))));
+        v.push(kind(format!("SuperMinHash2<u64> m={}", m), true, false, false, 1, true, move || Box::new(ISmh2U64::<FnvHasher>::new(m))));
         v.push(kind(format!("SuperMinHash2<u32,XxHash32> m={}", m), true, false, false, 1, true, move || Box::new(ISmh2U32::new(m))));
         for variant in 0..3 {
-            v.push(kind(format!("SetSketcher<u16> params#{} m={}", variant, m), true, false, true, 1, true, move || Box::new(ISet::<u16>::new(variant, m))));
+            v.push(kind(format!("SetSketcher<u16> params#{} m={}", variant, m), true, false, true, 1, true, move || Box::new(ISet::<u16, FnvHasher>::new(variant, m))));
         }
-        v.push(kind(format!("SetSketcher<u32> params#0 m={}", m), true, false, true, 1, true, move || Box::new(ISet::<u32>::new(0, m))));
-        v.push(kind(format!("SetSketcher<u8> params#0 m={} (overflowing registers)", m), true, false, true, 1, true, move || Box::new(ISet::<u8>::new(0, m))));
-        v.push(kind(format!("OptDensMinHash<f64> m={}", m), true, true, false, 1, true, move || Box::new(IOpt::<f64>::new(m))));
-        v.push(kind(format!("RevOptDensMinHash<f64> m={}", m), true, true, false, 1, true, move || Box::new(IRev::<f64>::new(m))));
-        v.push(kind(format!("OptDensMinHash<f32> m={}", m), true, true, false, 1, true, move || Box::new(IOpt::<f32>::new(m))));
-        v.push(kind(format!("RevOptDensMinHash<f32> m={}", m), true, true, false, 1, true, move || Box::new(IRev::<f32>::new(m))));
+        v.push(kind(format!("SetSketcher<u32> params#0 m={}", m), true, false, true, 1, true, move || Box::new(ISet::<u32, FnvHasher>::new(0, m))));
+        v.push(kind(format!("SetSketcher<u8> params#0 m={} (overflowing registers)", m), true, false, true, 1, true, move || Box::new(ISet::<u8, FnvHasher>::new(0, m))));
+        v.push(kind(format!("OptDensMinHash<f64> m={}", m), true, true, false, 1, true, move || Box::new(IOpt::<f64, FnvHasher>::new(m))));
+        v.push(kind(format!("RevOptDensMinHash<f64> m={}", m), true, true, false, 1, true, move || Box::new(IRev::<f64, FnvHasher>::new(m))));
+        v.push(kind(format!("OptDensMinHash<f32> m={}", m), true, true, false, 1, true, move || Box::new(IOpt::<f32, FnvHasher>::new(m))));
+        v.push(kind(format!("RevOptDensMinHash<f32> m={}", m), true, true, false, 1, true, move || Box::new(IRev::<f32, FnvHasher>::new(m))));
+        // pass-through hasher (pre-hashed data): item hashes are the items themselves, including 0
+        v.push(kind(format!("SuperMinHash<f64,NoHash> m={}", m), true, false, false, 1, true, move || Box::new(ISmh::<f64, NoHashHasher>::new(m))));
+        v.push(kind(format!("SuperMinHash2<u64,NoHash> m={}", m), true, false, false, 1, true, move || Box::new(ISmh2U64::<NoHashHasher>::new(m))));
+        v.push(kind(format!("SetSketcher<u16,NoHash> params#1 m={}", m), true, false, true, 1, true, move || Box::new(ISet::<u16, NoHashHasher>::new(1, m))));
+        v.push(kind(format!("OptDensMinHash<f64,NoHash> m={}", m), true, true, false, 1, true, move || Box::new(IOpt::<f64, NoHashHasher>::new(m))));
+        v.push(kind(format!("RevOptDensMinHash<f64,NoHash> m={}", m), true, true, false, 1, true, move || Box::new(IRev::<f64, NoHashHasher>::new(m))));
         v.push(kind(format!("ProbMinHash2 m={}", m), true, false, false, 1, true, move || Box::new(IPmh2::new(m))));
         if m >= 2 {
             v.push(kind(format!("ProbMinHash3 m={}", m), false, false, false, 1, true, move || Box::new(IPmh3::new(m))));
